@@ -12,7 +12,7 @@ PURE_SAT_SIDE = {'QF_UF', 'QF_LRA', 'QF_RDL', 'QF_IDL'}
 
 class C22(Check):
     pid = 'C22'
-    profiles = ['QF_UF', 'QF_UF', 'QF_LRA', 'QF_LRA', 'QF_LIA', 'QF_RDL', 'QF_IDL', 'QF_AX', 'QF_UFLRA', 'QF_UFLIA', 'QF_ALIA', 'QF_UFIDL']
+    profiles = ['QF_UF', 'QF_UF', 'QF_LRA', 'QF_LRA', 'QF_LIA', 'QF_RDL', 'QF_IDL', 'QF_AX', 'QF_AX', 'QF_UFLRA', 'QF_UFLIA', 'QF_ALIA', 'QF_ALRA', 'QF_UFIDL']
     technique = 'deterministic simulation of the SAT-engine/theory interface: seeded assert/check/backtrack sequences against the real THandler, R-truth oracle per step'
     rule = ('atom pool produced by the real preprocessing + CNF pipeline (<= 24 atoms); the simulator plays the SAT engine and issues <= 200 seeded assert / check(incomplete|complete) / '
             'backtrack operations on the real THandler (LA, UF, array, IDL, RDL, UFLA handlers), adopting theory deductions and asking for their reasons after a temporary '
